@@ -764,6 +764,16 @@ theorem load_model_satisfies_spec (ex : List CStr) (name : CStr) :
     judgeEv (.call "load" "-" [name] :: (loadEvents ex name).1) = [] :=
   judge_compile "load" _ _ (by decide) (loadEvents_safe ex name)
 
+/-- saved binaries (observation level): the model's trace has no libc line at all — the statement carried by the
+    run is the oracle's: a libc call on an unsafe path printed by the harness in this mode is `fs-absolute` /
+    `fs-dotdot` -/
+theorem binary_model_satisfies_spec (name : CStr) :
+    judgeEv (.call "binary" "-" [name] :: binaryEvents name) = [] := by
+  simp [judgeEv, binaryEvents, judgeStep]
+
+example : judgeEv [.call "binary" "-" [str "/d/b"], .fs "fopen" true (str "../bin/d/b.b")] ≠ [] := by decide
+example : judgeEv [.call "binary" "-" [str "/d/b"], .fs "stat" false (str "/bin")] ≠ [] := by decide
+
 theorem include_model_satisfies_spec (base name : CStr) :
     judgeEv (.call "include" "-" [base, name] :: includeEvents base name) = [] := by
   apply judge_compile "include" _ _ (by decide)
